@@ -43,6 +43,7 @@ class Run(object):
         self.explanation = ''
         self.extra = {}
         self.expected_min_obligations = 1
+        self.level_claim = 'proof'     # the level MANIFEST claims; evidence reports it only when its conditions are met
         self.covered_by_standin = []   # fnmatch patterns of undecided obligations a passed stand-in covers
         self.spurious = []
         os.makedirs(REPLAYS, exist_ok=True)
@@ -142,7 +143,7 @@ class Run(object):
             self.checker_errors.append('vacuity guard: %d obligations generated, at least %d expected'
                                        % (n, self.expected_min_obligations))
             status = 3
-        level = 'proof' if (self.level_proof and proved == n and n > 0 and not self.undecided) else 'other'
+        level = 'proof' if (self.level_claim == 'proof' and self.level_proof and proved == n and n > 0 and not self.undecided) else 'other'
         for e in self.known:
             if e['id'] in self.known_hit:
                 print('KNOWN-FINDING: property=%s %s [%s; %d obligation(s)]' % (self.prop, e['what'], e['id'], self.known_hit[e['id']]))
